@@ -53,10 +53,14 @@ func decodeDoc(b []byte) (o decodeOutcome) {
 	case o = <-ch:
 	case <-time.After(5 * time.Second):
 		o.panicMsg = "the decoder has not returned after 5 seconds (deadlock or endless loop)"
+		decodeHangs++
 	}
 	unmark()
 	return o
 }
+
+// decodeHangs counts decoders that did not return; after three the check stops handing out documents (each costs five seconds)
+var decodeHangs int
 
 func encodeDoc(t *tms20.TileMatrixSet) (b []byte, p string) {
 	defer func() {
@@ -359,6 +363,9 @@ func checkC16(e *env) {
 		r.Notes = append(r.Notes, fmt.Sprintf("only %d documents found under %s", len(docs), repoDir()))
 	}
 	one := func(name string, tree interface{}, mutated bool) {
+		if decodeHangs >= 3 {
+			return
+		}
 		b, _ := json.Marshal(tree)
 		op := "tmsdoc " + string(b)
 		short := name
